@@ -459,6 +459,11 @@ func (c *Cursor) Filter(ctx context.Context, idxStr string, val []interface{}) e
 			return res
 		}
 		op := Op(opInt)
+		if val[i] == nil {
+			// a comparison with NULL is never true
+			c.eof = true
+			return nil
+		}
 		c.ops[i] = op
 		c.operands[i] = NewKey(val[i])
 		if op == OpLT || op == OpLE || op == OpEQ {
